@@ -3,6 +3,7 @@ import LhasaV.Lemmas.HeaderName
 import LhasaV.Lemmas.GlobFs
 import LhasaV.Lemmas.Contain
 import LhasaV.Lemmas.MessagesAgree
+import LhasaV.Lemmas.ContainW
 /-!
 # C10 — extraction never touches anything outside the extraction directory
 -/
@@ -121,5 +122,54 @@ theorem run_contained_messages (archive : Array UInt8) (o : Opts) (fs₀ : Fs.St
     ∃ new, (Messages.runExtract archive o fs₀ answers).2.2.log = new ++ fs₀.log ∧
       ∀ m ∈ new, fs₀.cwd <+: m.path :=
   MessagesAgree.mrun_contained archive o fs₀ answers hw hsl hdo hd hp hs
+
+/-! ## `w=DIR`, and the commands that must not touch the file system -/
+
+open GlobFs Contain ContainW in
+/-- **Containment with `w=DIR`, the whole run** (the message-bearing model, tied byte for byte to
+the tool): `lha x`/`e` with `w=d` and any of f, q, i, n, wildcards; `d` relative, non-empty, without
+a `..` component (`.` components and doubled or trailing slashes allowed); whatever exists at a
+component prefix of DIR is a directory (missing is allowed); every link visible below `cwd/DIR` is
+safe — links elsewhere may be dangerous. For ANY archive and answers: cwd is unchanged and every
+mutation acts below `cwd/DIR`, except the `mkdir`s of DIR's own components that were missing. -/
+theorem run_contained_w (archive : Array UInt8) (o : Opts) (fs₀ : Fs.St) (answers : Bytes)
+    (d : Bytes) (hx : o.extractPath = some d) (hne : d ≠ []) (hrel : d.head? ≠ some 0x2f)
+    (hnd : NoDotDot d) (hd : DirsOk fs₀)
+    (hchain : ∀ pre, pre <+: comps d → pre ≠ [] → NoFL fs₀ (fs₀.cwd ++ pre))
+    (hs : SafeAt (fs₀.cwd ++ comps d) fs₀) :
+    (Messages.runExtract archive o fs₀ answers).2.2.cwd = fs₀.cwd ∧
+    ∃ new, (Messages.runExtract archive o fs₀ answers).2.2.log = new ++ fs₀.log ∧
+      ∀ m ∈ new, (fs₀.cwd ++ comps d) <+: m.path ∨
+        (m.op = "mkdir" ∧ Fs.lookup fs₀ m.path = none ∧
+          ∃ pre, pre <+: comps d ∧ pre ≠ [] ∧ m.path = fs₀.cwd ++ pre) :=
+  ContainW.mrun_contained_w archive o fs₀ answers d hx hne hrel hnd hd hchain hs
+
+open GlobFs Contain ContainW in
+/-- … and whatever DIR is (missing, a directory, a file, a safe link), with every link below cwd
+safe: every mutation is below the current directory. Same for the older model `Extract.run`. -/
+theorem run_contained_w_cwd (archive : Array UInt8) (o : Opts) (fs₀ : Fs.St) (answers : Bytes)
+    (d : Bytes) (hx : o.extractPath = some d) (hne : d ≠ []) (hrel : d.head? ≠ some 0x2f)
+    (hnd : NoDotDot d) (hs : SafeLinks fs₀) (hd : DirsOk fs₀) :
+    ((Messages.runExtract archive o fs₀ answers).2.2.cwd = fs₀.cwd ∧
+      ∃ new, (Messages.runExtract archive o fs₀ answers).2.2.log = new ++ fs₀.log ∧
+        ∀ m ∈ new, fs₀.cwd <+: m.path) ∧
+    ((run archive o fs₀ answers).fs.cwd = fs₀.cwd ∧
+      ∃ new, (run archive o fs₀ answers).fs.log = new ++ fs₀.log ∧ ∀ m ∈ new, fs₀.cwd <+: m.path) :=
+  ⟨ContainW.mrun_contained_w_cwd archive o fs₀ answers d hx hne hrel hnd hs hd,
+   ContainW.run_contained_w_cwd archive o fs₀ answers d hx hne hrel hnd hs hd⟩
+
+/-- **`lha t` creates or modifies no file-system object at all**: for every archive, options,
+file-system state and answers the run ends with exactly the file system it started with (mutation
+log included). -/
+theorem test_touches_nothing (archive : Array UInt8) (o : Opts) (fs : Fs.St) (answers : Bytes) :
+    (Messages.run .test archive o fs answers).x.fs = fs :=
+  ContainW.test_touches_nothing archive o fs answers
+
+/-- **the dry run (`xn`, `en`) touches nothing** and consumes no answer, whatever the other options -/
+theorem dry_run_touches_nothing (archive : Array UInt8) (o : Opts) (fs : Fs.St) (answers : Bytes)
+    (hd : o.dryRun = true) :
+    (Messages.run .extract archive o fs answers).x.fs = fs ∧
+    (Messages.run .extract archive o fs answers).x.answers = answers :=
+  ContainW.dry_run_touches_nothing archive o fs answers hd
 
 end LhasaV.Props.C10
